@@ -28,6 +28,7 @@ ACTIVE_CFGS = None  # set by check.py for a non-default configuration (configs.j
 REFUTATIONS = (
     'postcondition not satisfied',
     'precondition not satisfied',
+    'precondition not met',   # e.g. "precondition not met: index in bounds for this access" (fixed-size array index)
     'invariant not satisfied',
     'assertion failed',
     'possible arithmetic underflow/overflow',
